@@ -48,6 +48,9 @@ type El struct {
 	Tag   string
 	Attrs [][2]string // sorted by name
 	Text  string      // for text nodes (Tag == "#text")
+	// Merged is set when the text run was joined from several text nodes (separated by
+	// comments in the source); whitespace at the joints is not meaningful.
+	Merged bool
 }
 
 // Options control the projection.
@@ -92,7 +95,8 @@ func Project(nodes []*html.Node, o Options) []El {
 			}
 			// merge adjacent text runs
 			if len(out) > 0 && out[len(out)-1].Tag == "#text" && out[len(out)-1].Depth == d {
-				out[len(out)-1].Text = NormText(out[len(out)-1].Text + " " + t)
+				out[len(out)-1].Text = NormText(out[len(out)-1].Text + t)
+				out[len(out)-1].Merged = true
 				return
 			}
 			out = append(out, El{Depth: d, Tag: "#text", Text: t})
